@@ -36,7 +36,7 @@
 #define MAXFL 4096
 #define SBCAP 32
 
-enum { K_BOOL, K_INT, K_FLOAT, K_DOUBLE, K_PTR, K_FLAG, K_SPIN, K_TICKET, K_TSTACK };
+enum { K_BOOL, K_INT, K_FLOAT, K_DOUBLE, K_PTR, K_FLAG, K_SPIN, K_TICKET, K_TSTACK, K_LDOUBLE };
 enum { S_RANDOM, S_PCT, S_TARGET, S_STALL, S_SERIAL, S_REPLAY, NSTRAT };
 static const char *stratname[] = {"random", "pct", "targeted", "stall", "serial", "replay"};
 enum { C_OK, C_NONLIN, C_LIVELOCK, C_NEIGHBOUR, C_CRASH };
@@ -52,6 +52,7 @@ typedef struct {
   POp ops[MAXT][MAXOPS];
   int strategy, p_den, pct_d, stall_t, stall_k, stall_len;
   uint64_t sched_seed;
+  int mix;            // threads alternate between the default and the -fPIC build: the same object operated on from two object files
   int tso, flush_den; // store-buffer model on/off; a buffered store becomes visible at a decision point with probability 1/flush_den
   int nfl;
   int npre;
@@ -123,6 +124,7 @@ static int tkind_of(const struct opinfo *o) {
     return K_INT;
   }
   if (!strcmp(o->type, "_Bool")) return K_BOOL;
+  if (!strcmp(o->type, "long double")) return K_LDOUBLE;
   if (!strcmp(o->type, "float")) return K_FLOAT;
   if (!strcmp(o->type, "double")) return K_DOUBLE;
   if (!strcmp(o->type, "long *")) return K_PTR;
@@ -502,7 +504,7 @@ static void worker(int t) {
     loaded_in_op[t] = 0;
     r->inv = ++stamp;
     inflight[t] = o->obj;
-    long ret = optable[o->op].fn[P->build](objaddr[o->obj], o->a, &b);
+    long ret = optable[o->op].fn[P->mix ? (P->build ^ (t & 1)) : P->build](objaddr[o->obj], o->a, &b);
     inflight[t] = -1;
     r->resp = ++stamp;
     r->ret = ret;
@@ -797,6 +799,7 @@ static void gen_init(PObj *o, int kind, int size, int domain) {
     memcpy(o->init, &d, 8);
     break;
   }
+  case K_LDOUBLE: { long double q = (long double)(v % 100000); memcpy(o->init, &q, 10); break; } // the six padding bytes stay zero: fstpt leaves them alone
   case K_PTR: { long q = v * 8; memcpy(o->init, &q, 8); break; }
   case K_SPIN: memcpy(o->init + 8, &v, 8); break;
   case K_TSTACK: break; // empty list, all links null
@@ -919,6 +922,18 @@ static int gen(Plan *p, uint64_t seed) {
   // store-buffer model for a quarter of the multi-threaded plans. Operations that ARE plain stores by design (atomic_store,
   // atomic_flag_clear as chibicc's <stdatomic.h> spells them: not read-modify-writes, so outside this property) would be
   // flagged for what they are; plans containing one keep sequentially consistent memory.
+  // a quarter of the plans let every thread run ONE operation function (whatever hidden state the emitted code keeps per
+  // function is then shared by all of them at once); a quarter of the plans whose objects are reached through pointers let
+  // odd threads use the other build's code (two object files operating on one object)
+  if (p->nthreads > 1 && below(4) == 0) {
+    const POp *o0 = &p->ops[0][0];
+    if (!p->obj[0].local && strcmp(optable[o0->op].opname, "tpush"))
+      for (int t = 0; t < p->nthreads; t++)
+        for (int k = 0; k < p->nops[t]; k++) { p->ops[t][k].op = o0->op; p->ops[t][k].obj = o0->obj; }
+  }
+  p->mix = p->nthreads > 1 && below(4) == 0;
+  for (int j = 0; j < p->nobj; j++)
+    if (p->obj[j].local || optable[group_ops[group_first[p->obj[j].group]]].addr[0]) p->mix = 0;
   p->tso = p->nthreads > 1 && below(4) == 0;
   static const int fdens[] = {2, 8, 64, 1 << 20};
   p->flush_den = fdens[below(4)];
@@ -934,8 +949,8 @@ static int gen(Plan *p, uint64_t seed) {
 static void hex(FILE *f, const unsigned char *b, int n) { for (int i = 0; i < n; i++) fprintf(f, "%02x", b[i]); }
 
 static void print_plan(FILE *f, const Plan *p, int with_pre) {
-  fprintf(f, "plan build=%d nthreads=%d nobj=%d strategy=%s p_den=%d pct_d=%d stall=%d,%d,%d sched_seed=%llu tso=%d,%d\n", p->build, p->nthreads,
-          p->nobj, stratname[p->strategy], p->p_den, p->pct_d, p->stall_t, p->stall_k, p->stall_len, (unsigned long long)p->sched_seed, p->tso, p->flush_den);
+  fprintf(f, "plan build=%d nthreads=%d nobj=%d strategy=%s p_den=%d pct_d=%d stall=%d,%d,%d sched_seed=%llu tso=%d,%d mix=%d\n", p->build, p->nthreads,
+          p->nobj, stratname[p->strategy], p->p_den, p->pct_d, p->stall_t, p->stall_k, p->stall_len, (unsigned long long)p->sched_seed, p->tso, p->flush_den, p->mix);
   for (int j = 0; j < p->nobj; j++) {
     const struct opinfo *o = &optable[group_ops[group_first[p->obj[j].group]]];
     fprintf(f, "obj %d %s size=%d adjacent=%d local=%d init=", j, o->name, p->obj[j].size, p->obj[j].adjacent, p->obj[j].local);
@@ -960,8 +975,8 @@ static int read_plan(FILE *f, Plan *p) {
     if (!strncmp(line, "plan ", 5)) {
       unsigned long long ss = 0;
       char st[32] = "";
-      sscanf(line, "plan build=%d nthreads=%d nobj=%d strategy=%31s p_den=%d pct_d=%d stall=%d,%d,%d sched_seed=%llu tso=%d,%d", &p->build,
-             &p->nthreads, &p->nobj, st, &p->p_den, &p->pct_d, &p->stall_t, &p->stall_k, &p->stall_len, &ss, &p->tso, &p->flush_den);
+      sscanf(line, "plan build=%d nthreads=%d nobj=%d strategy=%31s p_den=%d pct_d=%d stall=%d,%d,%d sched_seed=%llu tso=%d,%d mix=%d", &p->build,
+             &p->nthreads, &p->nobj, st, &p->p_den, &p->pct_d, &p->stall_t, &p->stall_k, &p->stall_len, &ss, &p->tso, &p->flush_den, &p->mix);
       p->sched_seed = ss;
       p->strategy = S_REPLAY;
       for (int i = 0; i < NSTRAT; i++) if (!strcmp(st, stratname[i])) p->strategy = i;
@@ -1345,7 +1360,7 @@ int main(int argc, char **argv) {
     uint64_t master = strtoull(argv[2], 0, 0);
     long first = atol(argv[3]), count = atol(argv[4]);
     long runs = 0, viol = 0, steps = 0, switches = 0, windows = 0, nontriv = 0, msteps = 0, casfail = 0, drained = 0, stallf = 0, pctf = 0,
-         ops = 0, minimised = 0, sampled_distinct = 0, tso_plans = 0, sbb = 0, sbf = 0, sbd = 0, sbw = 0;
+         ops = 0, minimised = 0, sampled_distinct = 0, tso_plans = 0, mix_plans = 0, sbb = 0, sbf = 0, sbd = 0, sbw = 0;
     long by_strat[NSTRAT] = {0}, by_threads[MAXT + 1] = {0}, by_cls[9] = {0}, by_storage[10] = {0}, by_build[2] = {0}, by_viol[5] = {0};
     for (long i = first; i < first + count; i++) {
       uint64_t seed = mixseed(master, i);
@@ -1355,7 +1370,7 @@ int main(int argc, char **argv) {
       steps += r.steps; switches += r.switches; windows += r.conflict_windows; msteps += r.msteps;
       casfail += r.cas_fail_writeback; drained += r.drained; stallf += r.stall_fired; pctf += r.pct_fired;
       by_strat[p.strategy]++; by_threads[p.nthreads]++; by_build[p.build]++;
-      tso_plans += p.tso; sbb += r.sb_buffered; sbf += r.sb_flushed; sbd += r.sb_forced; sbw += r.sb_windows;
+      mix_plans += p.mix; tso_plans += p.tso; sbb += r.sb_buffered; sbf += r.sb_flushed; sbd += r.sb_forced; sbw += r.sb_windows;
       for (int t = 0; t < p.nthreads; t++)
         for (int k = 0; k < p.nops[t]; k++) { ops++; by_cls[optable[p.ops[t][k].op].cls]++; by_storage[optable[p.ops[t][k].op].storage]++; }
       if (r.conflict_windows > 0) {
@@ -1381,6 +1396,7 @@ int main(int argc, char **argv) {
     static const char *sn[] = {"ptr", "member", "global", "gmember", "garray", "algo", "nested", "automatic", "tls", "tlsmember"};
     for (int c = 0; c < 10; c++) printf(" storage_%s=%ld", sn[c], by_storage[c]);
     printf(" build_default=%ld build_pic=%ld", by_build[0], by_build[1]);
+    printf(" mixed_build_plans=%ld", mix_plans);
     printf(" tso_plans=%ld tso_stores_buffered=%ld tso_flushed_by_scheduler=%ld tso_drained_by_barrier_or_own_load=%ld tso_loads_overtaking_own_store=%ld", tso_plans, sbb, sbf, sbd, sbw);
     for (int c = 1; c < 5; c++) printf(" viol_%s=%ld", clsname[c], by_viol[c]);
     printf("\n");
